@@ -169,8 +169,18 @@ def make_endpoint_class():
                 self.flags.add("concurrent_transport_send")
             self.in_send += 1
             try:
-                self.out.write(bytes(item))
-                await anyio.lowlevel.checkpoint()
+                # a transport takes a large item in pieces (a socket's send buffer): the bytes of ONE send() call reach
+                # the wire over several scheduling steps, so two overlapping send() calls interleave on the wire - the
+                # layer above must never have two in flight (SocketStream refuses the second with BusyResourceError)
+                item = bytes(item)
+                if len(item) > 32768:
+                    self.flags.add("transport_send_in_pieces")
+                    for off in range(0, len(item), 16384):
+                        self.out.write(item[off:off + 16384])
+                        await anyio.lowlevel.checkpoint()
+                else:
+                    self.out.write(item)
+                    await anyio.lowlevel.checkpoint()
             finally:
                 self.in_send -= 1
 
